@@ -32,6 +32,7 @@ type FuzzStep struct {
 	Method   string              `json:"method,omitempty"`
 	Header   map[string][]string `json:"header,omitempty"`
 	Reuse    bool                `json:"reuse,omitempty"`
+	LateBody bool                `json:"late_body,omitempty"` // the caller reads the body only after background work has finished
 }
 
 // FuzzCase is one random history.
@@ -286,6 +287,9 @@ func genFuzzCase(r *rand.Rand, bias string) FuzzCase {
 			total++
 		}
 		st.Reuse = chance(r, 0.12)
+		if bias == "C16" {
+			st.LateBody = chance(r, 0.3)
+		}
 		c.Steps = append(c.Steps, st)
 	}
 	return c
@@ -385,7 +389,7 @@ func runFuzzCaseWith(c *FuzzCase, opt sim.WorldOpt, prepare func(w *sim.World), 
 		if st.DtS > 0 {
 			time.Sleep(time.Duration(st.DtS * float64(time.Second)))
 		}
-		spec := sim.ReqSpec{Method: st.Method, URL: fuzzSpellings[st.Spelling](c.Resources[st.Res].Path), Header: st.Header, Reuse: st.Reuse}
+		spec := sim.ReqSpec{Method: st.Method, URL: fuzzSpellings[st.Spelling](c.Resources[st.Res].Path), Header: st.Header, Reuse: st.Reuse, LateBody: st.LateBody}
 		ex := w.Do(spec)
 		in := mon.Classify(w, ex)
 		if Verbose {
@@ -478,6 +482,13 @@ func fuzzDriver(r *run.Runner, prop string, n int) {
 				ante("C04", a4, "from-store-with-vary")
 				v5, a5 := mon.C05Body(w, in)
 				report(v5)
+				if prop == "C16" && in.Ex.Spec.LateBody {
+					// the caller read the body after all background work: it must still be whole
+					for _, v := range v5 {
+						r.Violation("returned-body-touched", v.Sig, "body read by the caller after quiescence: "+v.Msg, exSummaries(w))
+					}
+					r.Count("late_body_reads", 1)
+				}
 				ante("C05", a5, "body-compared")
 				v6, nw := mon.C06(w, in)
 				report(v6)
